@@ -76,8 +76,8 @@ Admitted(c, i) ==
      ELSE {AbsentV, c.leaves[i].zero, "<nil>"}     \* nobody defines it and it has no default: left open
 
 Tag(c, i) ==
-  IF i \in EIdx(c) /\ SharesList(c, i) THEN "env-vars-share-list"
-  ELSE IF i \in EIdx(c) /\ NestedInNewElement(c, i) THEN "env-nested-key-in-new-element"
+  IF i \in EIdx(c) /\ NestedInNewElement(c, i) THEN "env-nested-key-in-new-element"
+  ELSE IF i \in EIdx(c) /\ SharesList(c, i) THEN "env-vars-share-list"
   ELSE "leaf-differs"
 
 Wrong(c) == {i \in 1..NL(c) : c.obs.vals[i] \notin Admitted(c, i)}
@@ -124,8 +124,8 @@ UsableReasons(c) ==
   IF c.form = "flow" THEN UsabilityFindings(c.obs)
   ELSE \* per-leaf form: the file side is the same as in the flow form; only the comparison is judged
        IF UsableFromFile(c.obs) = UsableFromEnv(c.obs) THEN {}
-       ELSE IF UsableFromFile(c.obs) /\ PathsShareList(c.vars) THEN {"env-vars-share-list"}
        ELSE IF UsableFromFile(c.obs) /\ PathsNested(c.vars) THEN {"env-nested-key-in-new-element"}
+       ELSE IF UsableFromFile(c.obs) /\ PathsShareList(c.vars) THEN {"env-vars-share-list"}
        ELSE {"file-env-usability-differs"}
 
 UsableNonTrivial(c) == c.source # "both" \/ ~UsableFromFile(c.obs) \/ ~UsableFromEnv(c.obs)
